@@ -76,6 +76,8 @@ def check(cx):
     depends(cx, r6, 'C03', ('R3.3', 'R3.6'), 'authenticated is written only by authenticate(), which is not re-entered once registered',
             only=r'writes-authenticated|authenticate-reentry')
     depends(cx, r6, 'C02', ('R2.3', 'R2.5', 'R2.6'), 'the connection owns the nick it tears down')
+    depends(cx, r6, 'C02', ('R2.1',), 'only the teardown takes a user out of the registry (it finds the entry it has to clean up after)',
+            only=r'registry-remove|calls-remove_user')
 
     # ---------------------------------------------------------------- R6.2
     r2 = cx.rule('R6.2', 'termination causes store the quit flag', floor=4, kind='must-exist')
